@@ -75,6 +75,9 @@ pub struct ConnCase {
     /// available at once); only used with handlers that leave the parser at a record boundary
     #[serde(default)]
     pub pipelined: bool,
+    /// readiness script of the transport's flush (see `World::flush_script`)
+    #[serde(default)]
+    pub flush_script: Vec<bool>,
 }
 
 /// Only noise kinds whose reply does not depend on the protocol phase (plus silent ones) are
@@ -250,6 +253,7 @@ pub const STEP_LIMIT: usize = 2_000_000;
 pub fn run_conn(c: &ConnCase, b: &Built, fault: IoFault, mut on_step: impl FnMut(usize, &Runner) -> Option<()>) -> Result<RunResult, Fail> {
     let cfg = syncdrv::config((c.buf as usize).max(b.need), c.max_conns as usize);
     let world = Arc::new(Mutex::new(World::new(b.client.clone(), b.releases.clone(), c.read_script.clone(), c.write_script.clone(), c.vectored, fault)));
+    world.lock().unwrap().flush_script = c.flush_script.clone();
     let step = Arc::new(AtomicUsize::new(0));
     let sh = Arc::new(HShared {
         scripts: c.reqs.iter().zip(&b.kinds).filter(|(_, k)| **k != Kind::ParamsAbort).map(|(r, _)| r.handler.clone()).collect(),
@@ -730,7 +734,15 @@ pub fn conn_case(max_reqs: usize, allow_err: bool, wait_mgmt: BoxedStrategy<bool
         prop_oneof![Just(1u32), 1u32..1000],
         any::<bool>(),
     )
-        .prop_map(|(reqs, tail, read_script, write_script, vectored, buf, max_conns, propagate)| ConnCase { reqs, tail, read_script, write_script, vectored, buf, max_conns, propagate, pipelined: false })
+        .prop_map(|(reqs, tail, read_script, write_script, vectored, buf, max_conns, propagate)| {
+            // derived (keeps the tuple arity): how the transport's flush behaves
+            let flush_script = match (max_conns as usize + reqs.len() + write_script.len()) % 5 {
+                0 => vec![true, false],
+                1 => vec![false, true, true],
+                _ => Vec::new(),
+            };
+            ConnCase { reqs, tail, read_script, write_script, vectored, buf, max_conns, propagate, pipelined: false, flush_script }
+        })
         .boxed()
 }
 
